@@ -574,7 +574,16 @@ func kindSets(P *Prog, fn *ssa.Function) map[*ssa.BasicBlock]map[kindVar]kset {
 		case *ssa.Convert:
 			scan(x.X, depth+1)
 		case *ssa.Call:
+			if b, isBuiltin := x.Call.Value.(*ssa.Builtin); isBuiltin && b.Name() != "" {
+				return
+			}
 			for _, a := range x.Call.Args {
+				if _, isConst := a.(*ssa.Const); isConst {
+					continue
+				}
+				if _, nested := a.(*ssa.Call); nested {
+					continue
+				}
 				scan(a, depth+1)
 				if st := structOf(a.Type()); st != nil {
 					if _, isSlice := a.Type().Underlying().(*types.Slice); isSlice {
@@ -628,8 +637,19 @@ func kindSets(P *Prog, fn *ssa.Function) map[*ssa.BasicBlock]map[kindVar]kset {
 		fr := &frame{c: c, fn: fn, root: true}
 		st := &pathState{env: map[ssa.Value]aval{}, tup: map[ssa.Value][]aval{}, visits: map[*ssa.BasicBlock]int{}}
 		// a predicate called right in this block for the condition
-		for _, ins := range b.Instrs {
-			if call, ok := ins.(*ssa.Call); ok {
+		var calls func(v ssa.Value, depth int)
+		calls = func(v ssa.Value, depth int) {
+			ins, ok := v.(ssa.Instruction)
+			if !ok || depth > 4 || ins.Block() != b {
+				return
+			}
+			for _, op := range operandsOf(ins) {
+				calls(op, depth+1)
+			}
+			if call, ok := v.(*ssa.Call); ok {
+				if _, done := st.env[call]; done {
+					return
+				}
 				if res := fr.execCall(call, st); len(res) == 1 {
 					st.env[call] = res[0]
 				} else if len(res) > 1 {
@@ -637,6 +657,7 @@ func kindSets(P *Prog, fn *ssa.Function) map[*ssa.BasicBlock]map[kindVar]kset {
 				}
 			}
 		}
+		calls(iff.Cond, 0)
 		r := -1
 		if a := fr.eval(iff.Cond, st); a.k == avConst && a.c.Kind() == constant.Bool && !c.overflow {
 			if constant.BoolVal(a.c) {
@@ -1085,40 +1106,127 @@ func ruleResolverSpec(r *Run) {
 	}
 	r.AtLeast(rule, "introspection resolvers", len(resolvers), 6)
 	n := 0
+	isResolverFn := map[*ssa.Function]bool{}
+	for _, fs := range byType {
+		for _, f := range fs {
+			isResolverFn[f] = true
+		}
+	}
+	// one round of the selection loop, evaluated path by path (absval.go): what is stored under
+	// the alias of the selected field `name` when the type has kind `kind`
+	type roundKey struct {
+		sw         *strSwitch
+		name, kind string
+		absent     string
+	}
+	rounds := map[roundKey][]*roundOutcome{}
+	roundBad := map[roundKey]string{}
+	runners := map[*strSwitch]*roundRunner{}
+	round := func(rs resolver, name, kind, absent string) ([]*roundOutcome, string) {
+		k := roundKey{rs.sw, name, kind, absent}
+		if o, ok := rounds[k]; ok {
+			return o, roundBad[k]
+		}
+		rr, ok := runners[rs.sw]
+		if !ok {
+			var cb *ssa.BasicBlock
+			var names []string
+			for c := range rs.sw.cases {
+				names = append(names, c)
+			}
+			sort.Strings(names)
+			if len(names) > 0 {
+				cb = rs.sw.cases[names[0]]
+			}
+			if cb != nil {
+				rr = newRoundRunner(r.P, rs.fn, cb, isResolverFn)
+			}
+			runners[rs.sw] = rr
+		}
+		if rr == nil {
+			rounds[k], roundBad[k] = nil, "the switch over the selected field's name is not inside a loop over the selection"
+			return nil, roundBad[k]
+		}
+		outs, overflow := rr.run(name, kind, absent)
+		bad := ""
+		if overflow {
+			outs, bad = nil, "the resolver has too many paths to be evaluated"
+		} else if len(outs) == 0 {
+			bad = "no path through one round of the selection loop could be evaluated"
+		}
+		rounds[k], roundBad[k] = outs, bad
+		return outs, bad
+	}
+	kindsFor := func(rs resolver) []string {
+		if rs.def.Name == "__Type" && len(rs.sw.cases) >= 6 {
+			return allKinds
+		}
+		return []string{""}
+	}
 	for _, rs := range resolvers {
 		name := fnName(rs.fn)
-		// default branch stores nil?
-		defaultNil := false
-		if rs.sw.deflt != nil {
-			for _, ins := range rs.sw.deflt.Instrs {
-				if mu, ok := ins.(*ssa.MapUpdate); ok && isNilConst(unwrap(mu.Value)) {
-					defaultNil = true
+		site := r.P.pos(rs.sw.first.Cond.Pos())
+		// R11a.key: every answer is stored under the alias of the selected field
+		if rr0 := innermostLoop(rs.sw.first.Block()); rr0 != nil {
+			res := resultMaps(rs.fn)
+			for _, ins := range allInstrs(rs.fn) {
+				mu, ok := ins.(*ssa.MapUpdate)
+				if !ok || !res[mu.Map] || !rr0[mu.Block()] {
+					continue
 				}
+				n++
+				r.Check(aliasKey(mu.Key), "R11a.key", name, "answer of "+rs.def.Name+" stored under the alias", r.P.pos(mu.Pos()),
+					"the key is the alias of the selected field", "an answer of "+rs.def.Name+" is stored under a key that is not the alias of the selected field: `x: description` is answered under `description`, the key the client asked for is missing")
 			}
 		}
-		// wrapper switches of resolveType (NON_NULL / LIST) only answer kind/ofType and default to nil
-		wrapper := len(rs.sw.cases) <= 2 && defaultNil
 		for _, f := range rs.def.Fields {
 			if strings.HasPrefix(f.Name, "__") {
 				continue
 			}
 			n++
 			_, has := rs.sw.cases[f.Name]
-			site := r.P.pos(rs.sw.first.Cond.Pos())
 			construct := rs.def.Name + "." + f.Name
+			missing, null, bad := "", "", ""
+			for _, k := range kindsFor(rs) {
+				outs, b := round(rs, f.Name, k, "")
+				if b != "" {
+					bad = b
+					break
+				}
+				for _, o := range outs {
+					v, mu, ok := o.final()
+					if !ok && missing == "" {
+						missing = k
+						if k == "" {
+							missing = "any kind"
+						}
+					}
+					if ok && v.isNull() && null == "" {
+						null = r.P.pos(mu.Pos())
+					}
+				}
+			}
 			switch {
+			case bad != "":
+				r.Bad(rule, name, construct, site, "what the resolver for "+rs.def.Name+" answers for `"+f.Name+"` could not be determined: "+bad)
+			case missing != "":
+				r.Bad(rule, name, construct, site, "the resolver for "+rs.def.Name+" stores nothing for `"+f.Name+"` (type "+f.Type.String()+") on some path (for "+missing+"): validation accepts a query selecting it, but the key is missing from the answer")
+			case f.Type.NonNull && null != "":
+				r.Bad(rule, name, construct, site, "the resolver for "+rs.def.Name+" answers null for `"+f.Name+"` (stored at "+null+") although its type "+f.Type.String()+" is non-null")
 			case has:
-				r.OK(rule, name, construct, site, "explicit case")
-			case !f.Type.NonNull && defaultNil:
-				r.OK(rule, name, construct, site, "nullable field answered null by the default branch")
-			case wrapper:
-				r.OK(rule, name, construct, site, "wrapper type (LIST/NON_NULL): only kind and ofType are non-null, everything else is null by the default branch")
+				r.OK(rule, name, construct, site, "explicit case; a value is stored under the alias on every path through the round")
 			default:
-				r.Bad(rule, name, construct, site, "the resolver for "+rs.def.Name+" has no case for `"+f.Name+"` (type "+f.Type.String()+"): validation accepts a query selecting it, but the key is missing from the answer")
+				r.OK(rule, name, construct, site, "no case of its own; null is stored under the alias on every path through the round")
 			}
 		}
 		// element resolver of list/object-typed fields
-		for cname, body := range rs.sw.cases {
+		var cnames []string
+		for cname := range rs.sw.cases {
+			cnames = append(cnames, cname)
+		}
+		sort.Strings(cnames)
+		for _, cname := range cnames {
+			body := rs.sw.cases[cname]
 			fd := rs.def.Fields.ForName(cname)
 			if fd == nil {
 				r.Bad(rule, name, rs.def.Name+"."+cname, r.P.pos(firstPos(body)), "the resolver has a case `"+cname+"` that "+rs.def.Name+" does not define")
@@ -1193,69 +1301,201 @@ func ruleResolverSpec(r *Run) {
 					"the specification gives `"+cname+"` the includeDeprecated argument that switches the filter off",
 					"the list answered for `"+cname+"` leaves out elements marked @deprecated, but "+rs.def.Name+"."+cname+" has no includeDeprecated argument: a deprecated "+elem+" can never be listed although validation accepts requests that use it")
 			}
-			okElem := false
-			for _, w := range want {
-				if called[w] {
-					okElem = true
+			// the elements are produced by the resolver of the declared element type — on some
+			// path of the round, and for a kind-specific list for every kind that carries it
+			elemKinds := kindsFor(rs)
+			if _, kindSpecific := kindsOf[cname]; kindSpecific && len(elemKinds) > 1 {
+				elemKinds = kindsOf[cname]
+			}
+			okElem, elemWhy := true, ""
+			var elemOuts [][]*roundOutcome
+			for _, k := range elemKinds {
+				outs, bad := round(rs, cname, k, "")
+				if bad != "" {
+					okElem, elemWhy = false, bad
+					break
+				}
+				elemOuts = append(elemOuts, outs)
+				found := false
+				for _, o := range outs {
+					for _, ev := range o.events {
+						if ev.call == nil {
+							continue
+						}
+						for _, w := range want {
+							if ev.call == w || r.P.CG.Reachable([]*ssa.Function{ev.call}, nil)[w] {
+								found = true
+							}
+						}
+					}
+				}
+				if !found {
+					okElem = false
+					if k != "" {
+						elemWhy = "for kind " + k + " no path of the round reaches it"
+					}
 				}
 			}
+			_ = called
 			n++
 			r.Check(okElem, "R11b.elem", name, rs.def.Name+"."+cname+" resolved as "+elem, r.P.pos(firstPos(body)),
 				"elements are produced by the resolver matched to "+elem,
-				"`"+cname+"` is declared as "+fd.Type.String()+" but its elements are not produced by the resolver for "+elem+": fields of that type (e.g. defaultValue of input fields) are missing or wrong")
+				"`"+cname+"` is declared as "+fd.Type.String()+" but its elements are not produced by the resolver for "+elem+" ("+elemWhy+"): fields of that type (e.g. defaultValue of input fields) are missing or wrong")
+			// R11e.default: includeDeprecated defaults to false — when the argument is absent the
+			// elements marked @deprecated are tested for and left out
+			if fd.Arguments.ForName("includeDeprecated") != nil && fd.Type.Elem != nil {
+				okDef, whyDef := true, ""
+				for _, k := range elemKinds {
+					outs, bad := round(rs, cname, k, "includeDeprecated")
+					if bad != "" {
+						okDef, whyDef = false, bad
+						break
+					}
+					for _, o := range outs {
+						tested := false
+						for _, ev := range o.events {
+							if ev.depr {
+								tested = true
+							}
+							if ev.call != nil && isResolverFn[ev.call] && !tested {
+								okDef = false
+								whyDef = "a path of the round reaches " + fnName(ev.call) + " without the test for @deprecated"
+							}
+						}
+					}
+				}
+				n++
+				r.Check(okDef, "R11e.default", name, rs.def.Name+"."+cname+" without includeDeprecated leaves deprecated elements out", r.P.pos(firstPos(body)),
+					"with the argument absent every element passes the test for @deprecated before it is resolved",
+					"`"+cname+"` selected without includeDeprecated lists elements marked @deprecated ("+whyDef+"): the specification's default is false, clients that do not ask for deprecated members get them")
+			}
+			// R11e.builtin: the fields of a type are listed without the introspection meta fields
+			// gqlparser adds to the query root (__schema, __type): their name is tested
+			if rs.def.Name == "__Type" && cname == "fields" {
+				direct, okB := false, true
+				for _, outs := range elemOuts {
+					for _, o := range outs {
+						tested := false
+						for _, ev := range o.events {
+							if ev.nameT {
+								tested = true
+							}
+							for _, w := range want {
+								if ev.call == w {
+									direct = true
+									if !tested {
+										okB = false
+									}
+								}
+							}
+						}
+					}
+				}
+				if direct {
+					n++
+					r.Check(okB, "R11e.builtin", name, "__Type.fields leaves the introspection meta fields out", r.P.pos(firstPos(body)),
+						"every field definition passes a test of its name before it is resolved",
+						"`fields` resolves field definitions without a test of their name: gqlparser adds `__schema` and `__type` to the fields of the query root, and they are listed as fields of Query although the specification says they are not part of the type's fields")
+				}
+			}
+		}
+		// values answered by the cases
+		for _, cname := range cnames {
+			fd := rs.def.Fields.ForName(cname)
+			if fd == nil {
+				continue
+			}
+			seenMu := map[*ssa.MapUpdate]bool{}
+			for _, k := range kindsFor(rs) {
+				outs, _ := round(rs, cname, k, "")
+				for _, o := range outs {
+					_, mu, ok := o.final()
+					if !ok || seenMu[mu] {
+						continue
+					}
+					seenMu[mu] = true
+					r.checkAnsweredValue(name, rs.def.Name, cname, mu)
+				}
+			}
+		}
+	}
+	// R11a.arg: a resolver that is handed a definition built on the spot reads only fields the
+	// builder filled in (resolveInputField builds the ArgumentDefinition of an input field)
+	doneArgs := map[*ssa.Function]bool{}
+	for _, rs := range resolvers {
+		if !doneArgs[rs.fn] {
+			doneArgs[rs.fn] = true
+			r.checkBuiltArguments(rs.fn, rs.def.Name)
 		}
 	}
 	r.AtLeast(rule, "introspection fields checked", n, 30)
 
-	// R11b: kind guards of the __Type resolver
+	// R11b: kind guards of the __Type resolver — for every kind-specific field and every kind,
+	// what one round of the selection loop stores under the alias: not null exactly for the kinds
+	// the specification names (a dropped case, a nil list, a guard in a helper or a predicate are
+	// all evaluated, not recognised by shape)
 	for _, rs := range resolvers {
 		if rs.def.Name != "__Type" || len(rs.sw.cases) < 6 {
 			continue
 		}
-		ks := kindSets(r.P, rs.fn)
-		for key, want := range kindsOf {
-			body, ok := rs.sw.cases[key]
-			if !ok {
-				continue
-			}
-			// kinds under which a non-nil value is stored for this case
-			got := kset{}
-			seen := false
-			for _, b := range rs.fn.Blocks {
-				if !(b == body || (len(body.Preds) == 1 && body.Dominates(b))) {
-					continue
-				}
-				for _, ins := range b.Instrs {
-					mu, ok := ins.(*ssa.MapUpdate)
-					if !ok || isNilConst(unwrap(mu.Value)) {
-						continue
-					}
-					seen = true
-					if len(ks[b]) == 0 {
-						for _, k := range allKinds {
-							got[k] = true
-						}
-					}
-					for _, set := range ks[b] {
-						for k := range set {
-							got[k] = true
-						}
-					}
-				}
-			}
+		var keys []string
+		for key := range kindsOf {
+			keys = append(keys, key)
+		}
+		sort.Strings(keys)
+		for _, key := range keys {
 			wantSet := kset{}
-			for _, k := range want {
+			for _, k := range kindsOf[key] {
 				wantSet[k] = true
 			}
-			eq := seen && len(got) == len(wantSet)
-			for k := range wantSet {
-				if !got[k] {
+			site := r.P.pos(rs.sw.first.Cond.Pos())
+			if body, ok := rs.sw.cases[key]; ok {
+				site = r.P.pos(firstPos(body))
+			}
+			got, nullFor := kset{}, kset{}
+			understoodIn, understoodOut := false, false
+			why := ""
+			for _, k := range allKinds {
+				outs, bad := round(rs, key, k, "")
+				if bad != "" {
+					why = bad
+					break
+				}
+				allNotNull, allNull := len(outs) > 0, len(outs) > 0
+				for _, o := range outs {
+					v, _, ok := o.final()
+					if !ok || !v.isNotNull() {
+						allNotNull = false
+					}
+					if !ok || !v.isNull() {
+						allNull = false
+					}
+					if ok && v.isNotNull() {
+						got[k] = true
+					}
+					if !ok || v.isNull() {
+						nullFor[k] = true
+					}
+				}
+				if wantSet[k] && allNotNull {
+					understoodIn = true
+				}
+				if !wantSet[k] && allNull {
+					understoodOut = true
+				}
+			}
+			eq := why == "" && understoodIn && (understoodOut || len(wantSet) == len(allKinds))
+			for _, k := range allKinds {
+				if wantSet[k] && nullFor[k] || !wantSet[k] && got[k] {
 					eq = false
 				}
 			}
-			r.Check(eq, "R11b.kind", fnName(rs.fn), "__Type."+key+" non-null exactly for "+ksetString(wantSet), r.P.pos(firstPos(body)),
-				"a non-null answer is produced exactly for the kinds the specification names",
-				"`"+key+"` is answered non-null for kinds "+ksetString(got)+" but the specification requires exactly "+ksetString(wantSet)+" (null otherwise): clients rebuilding the schema see fields/members on the wrong kinds or miss them")
+			if why == "" && !(understoodIn && understoodOut) {
+				why = "the value stored could not be determined for any kind"
+			}
+			r.Check(eq, "R11b.kind", fnName(rs.fn), "__Type."+key+" non-null exactly for "+ksetString(wantSet), site,
+				"a non-null answer is produced exactly for the kinds the specification names (evaluated per kind on every path of the round)",
+				"`"+key+"` is answered non-null for kinds "+ksetString(got)+" and null (or not at all) for kinds "+ksetString(nullFor)+" but the specification requires a list exactly for "+ksetString(wantSet)+" (null otherwise) ["+why+"]: clients rebuilding the schema see fields/members on the wrong kinds or miss them")
 		}
 	}
 	// R11e.scope: sibling fields of one selection are answered independently. In the loop over
@@ -1691,4 +1931,171 @@ func ruleEnumTables(r *Run) {
 		r.OK(rule, "", "no near-complete enumeration tables", "-", fmt.Sprintf("no composite literal in the module lists three quarters or more of a gqlparser enumeration (%d enumerations known): nothing to compare", nEnums))
 	}
 	r.AtLeast(rule, "gqlparser enumerations known", nEnums, 3)
+}
+
+// checkAnsweredValue: what a case stores is the thing its label names.
+func (r *Run) checkAnsweredValue(fn, typ, cname string, mu *ssa.MapUpdate) {
+	site := r.P.pos(mu.Pos())
+	v := unwrap(mu.Value)
+	// a field of a gqlparser definition answered directly: it is the field the label names when
+	// the definition has one of that name (`description` answers X.Description, not X.Name)
+	if ld, ok := v.(*ssa.UnOp); ok && ld.Op == token.MUL {
+		if fa, ok := ld.X.(*ssa.FieldAddr); ok && fieldOf(fa) != nil && strings.Contains(namedOf(fa.X.Type()), "gqlparser/v2/ast.") {
+			if st := structOf(fa.X.Type()); st != nil {
+				hasNamed := false
+				for i := 0; i < st.NumFields(); i++ {
+					if strings.EqualFold(st.Field(i).Name(), cname) {
+						hasNamed = true
+					}
+				}
+				if hasNamed {
+					r.Check(strings.EqualFold(fieldOf(fa).Name(), cname), "R11a.value", fn, typ+"."+cname+" answers the field of that name", site,
+						"the definition's field of the same name is answered",
+						"`"+cname+"` of "+typ+" answers "+shortType(fa.X.Type())+"."+fieldOf(fa).Name()+" although the definition has a field for `"+cname+"`: clients read the wrong text")
+				}
+			}
+			// a default value is answered as a GraphQL literal: Raw is the bare text of a scalar
+			// (a string without its quotes) and empty for lists and objects
+			if cname == "defaultValue" && fieldOf(fa).Name() == "Raw" && strings.HasSuffix(namedOf(fa.X.Type()), "gqlparser/v2/ast.Value") {
+				r.Bad("R11a.value", fn, typ+".defaultValue is a GraphQL literal", site,
+					"`defaultValue` answers ast.Value.Raw: for a string default the quotes are missing and for a list or an object it is empty — the specification wants the value encoded as a GraphQL literal (Value.String())")
+			}
+		}
+	}
+	// the root types: `queryType` answers the query root and no other
+	if typ == "__Schema" && strings.HasSuffix(cname, "Type") {
+		own := strings.TrimSuffix(cname, "Type")
+		roots := map[string]bool{}
+		seen := map[ssa.Value]bool{}
+		var walk func(v ssa.Value, d int)
+		walk = func(v ssa.Value, d int) {
+			if v == nil || seen[v] || d > 8 {
+				return
+			}
+			seen[v] = true
+			switch x := v.(type) {
+			case *ssa.Const:
+				if x.Value != nil && x.Value.Kind() == constant.String {
+					roots[constant.StringVal(x.Value)] = true
+				}
+				return
+			case *ssa.FieldAddr:
+				if f := fieldOf(x); f != nil && strings.HasSuffix(namedOf(x.X.Type()), "gqlparser/v2/ast.Schema") {
+					roots[f.Name()] = true
+				}
+			case *ssa.Alloc:
+				// a literal built on the spot: what is stored into it
+				for _, ref := range *x.Referrers() {
+					if fa, ok := ref.(*ssa.FieldAddr); ok {
+						for _, r2 := range *fa.Referrers() {
+							if st, ok := r2.(*ssa.Store); ok && st.Addr == ssa.Value(fa) {
+								walk(st.Val, d+1)
+							}
+						}
+					}
+				}
+			}
+			if ins, ok := v.(ssa.Instruction); ok {
+				for _, op := range operandsOf(ins) {
+					walk(op, d+1)
+				}
+			}
+		}
+		walk(mu.Value, 0)
+		other := ""
+		for _, root := range []string{"Query", "Mutation", "Subscription"} {
+			if roots[root] && !strings.EqualFold(root, own) {
+				other = root
+			}
+		}
+		r.Check(other == "", "R11a.value", fn, typ+"."+cname+" answers its own root", site,
+			"no other root operation type is named by the answer",
+			"`"+cname+"` is answered from the "+other+" root: clients see the wrong type as the "+own+" root")
+	}
+}
+
+// checkBuiltArguments: at every call of the resolver with a definition built by a literal at the
+// call site, the literal fills in every field the resolver reads.
+func (r *Run) checkBuiltArguments(fn *ssa.Function, typ string) {
+	for pi, p := range fn.Params {
+		st := structOf(p.Type())
+		if _, isPtr := p.Type().Underlying().(*types.Pointer); !isPtr || st == nil || !strings.Contains(namedOf(p.Type()), "gqlparser/v2/ast.") {
+			continue
+		}
+		reads := map[string]bool{}
+		for _, ref := range *p.Referrers() {
+			if fa, ok := ref.(*ssa.FieldAddr); ok && fieldOf(fa) != nil {
+				for _, r2 := range *fa.Referrers() {
+					if ld, ok := r2.(*ssa.UnOp); ok && ld.Op == token.MUL {
+						reads[fieldOf(fa).Name()] = true
+					}
+				}
+			}
+		}
+		if len(reads) == 0 {
+			continue
+		}
+		for _, caller := range r.P.Funcs {
+			if caller.Pkg == nil || caller.Pkg.Pkg.Path() != introPkg {
+				continue
+			}
+			for _, ins := range allInstrs(caller) {
+				call, ok := ins.(*ssa.Call)
+				if !ok || pi >= len(call.Call.Args) {
+					continue
+				}
+				sc := call.Call.StaticCallee()
+				if sc == nil || (sc != fn && r.P.declared(sc) != fn) {
+					continue
+				}
+				al, ok := call.Call.Args[pi].(*ssa.Alloc)
+				if !ok {
+					continue
+				}
+				// the literal converts another definition: fields copied under their own name
+				// from one source (`Name: field.Name, Description: field.Description, …`)
+				filled := map[string]bool{}
+				copied := map[ssa.Value]int{}
+				for _, ref := range *al.Referrers() {
+					if fa, ok := ref.(*ssa.FieldAddr); ok && fieldOf(fa) != nil {
+						for _, r2 := range *fa.Referrers() {
+							if s, ok := r2.(*ssa.Store); ok && s.Addr == ssa.Value(fa) {
+								filled[fieldOf(fa).Name()] = true
+								if ld, ok := s.Val.(*ssa.UnOp); ok && ld.Op == token.MUL {
+									if sfa, ok := ld.X.(*ssa.FieldAddr); ok && fieldOf(sfa) != nil && fieldOf(sfa).Name() == fieldOf(fa).Name() {
+										copied[sfa.X]++
+									}
+								}
+							}
+						}
+					}
+				}
+				var src ssa.Value
+				for v, k := range copied {
+					if k >= 2 && (src == nil || k > copied[src]) {
+						src = v
+					}
+				}
+				if src == nil {
+					continue // built from scratch (`&ast.Type{NamedType: name}`): zero fields are meant
+				}
+				srcSt := structOf(src.Type())
+				var missing []string
+				for f := range reads {
+					if filled[f] || srcSt == nil {
+						continue
+					}
+					for i := 0; i < srcSt.NumFields(); i++ {
+						if srcSt.Field(i).Name() == f {
+							missing = append(missing, f)
+						}
+					}
+				}
+				sort.Strings(missing)
+				r.Check(len(missing) == 0, "R11a.arg", fnName(caller), "definition built for "+fnName(fn), r.P.pos(call.Pos()),
+					"the literal copies every field of its source that the resolver reads",
+					"the "+shortType(p.Type())+" built here from a "+shortType(src.Type())+" for the resolver of "+typ+" does not copy "+strings.Join(missing, ", ")+", which the source has and the resolver reads to answer its fields: they are answered empty/null (e.g. an input field loses its defaultValue)")
+			}
+		}
+	}
 }
